@@ -1,0 +1,25 @@
+//go:build verif
+
+// Contracts for the deductive verification in /verif (comment-only; compiled code is unaffected).
+package process
+
+// Key generation messages are only acted on for configured peers (property C16): every protocol entry point
+// requires a non-zero sender id (zero = "no configured peer carries the caller's authenticated name").
+
+//@ iface Service.OnPrepare(self, ctx, sender, account, passphrase, threshold, participants)
+//@ requires [frompeer] sender != 0
+//@ modifies procstate
+//@ iface Service.OnExecute(self, ctx, sender, account)
+//@ requires [frompeer] sender != 0
+//@ modifies procstate
+//@ iface Service.OnCommit(self, ctx, sender, account, confirmationData)
+//@ requires [frompeer] sender != 0
+//@ modifies procstate
+//@ iface Service.OnAbort(self, ctx, sender, account)
+//@ requires [frompeer] sender != 0
+//@ modifies procstate
+//@ iface Service.OnContribute(self, ctx, sender, account, secret, vVec)
+//@ requires [frompeer] sender != 0
+//@ modifies procstate
+//@ iface Service.OnGenerate(self, ctx, credentials, account, passphrase, signingThreshold, numParticipants)
+//@ modifies procstate
